@@ -528,3 +528,20 @@ Fixpoint sched_of (s : gst) (cs : list (Z * Z * Z * Z)) : option (list (Z * even
                    end
       end
   end.
+
+(* ------------------------------------------------------------------ (c) lanes and sources, sequential holders spec
+   PARTIAL: not an interleaving model.  At a quiescent point (nothing enqueued, no drainer, no wakeup in flight) the
+   internal count of a lane / source is determined by its holders:
+     +1 while external references exist (released by _dispatch_xref_dispose),
+     +2 while initially inactive (inline_internal.h _dispatch_queue_init, released by the activating resume),
+     +2 while suspended (queue.c _dispatch_lane_suspend, released after the wakeup of the last resume),
+     +1 per object whose do_targetq it is (child queues, sources),
+     +2 while its timer is armed (event/event.c _dispatch_timer_unote_arm / disarm),
+     +1 for a source until DSF_DELETED is set (source.c, released by _dispatch_source_refs_finalize_unregistration);
+   the push +2 (queue.c:5052) is always consumed by wakeup / invoke / invoke_finish before quiescence. *)
+Record lobj := { lx : Z; linactive : bool; lsusp : Z; lkids : Z; lsrc : bool; ldeleted : bool; larmed : bool }.
+Definition lane_ref (o : lobj) : Z :=
+  (if 0 <? lx o then 1 else 0) + (if linactive o then 2 else 0) + (if 0 <? lsusp o then 2 else 0) + lkids o +
+  (if larmed o then 2 else 0) + (if lsrc o && negb (ldeleted o) then 1 else 0) - 1.
+Definition lane_xref (o : lobj) : Z := lx o - 1.
+Definition lane_disposed (o : lobj) : bool := lane_ref o <? 0.
